@@ -316,6 +316,14 @@ class Real:
             self.build()
         with quiet():
             # lifecycle prefix: the same objects have been set up before (same grid object, other prices)
+            if getattr(self, 'prewrap', None):
+                # lifecycle prefix: the same asset objects were wrapped before in a structured asset with a narrower window of its own
+                # (and that wrapper was set up); wrapping must not leave anything on the assets it wrapped
+                ws, we = self.prewrap
+                tmp = eao.portfolio.StructuredAsset(name='TMPWRAP', nodes=[self.nodeobjs[n] for n in sorted(self.cfg['nodes'])],
+                                                    portfolio=eao.portfolio.Portfolio([self.assets[i] for i in self.order]),
+                                                    start=self.user_time(self.step_time(ws)), end=self.user_time(self.step_time(we)))
+                eao.portfolio.Portfolio([tmp]).setup_optim_problem(self.prices, self.timegrid)
             for _ in range(getattr(self, 'presetups', 0)):
                 self.portfolio.setup_optim_problem({k: v[::-1].copy() for k, v in self.prices.items()}, self.timegrid, **kw)
             self.op = self.portfolio.setup_optim_problem(self.prices, self.timegrid, **kw)
